@@ -2355,38 +2355,7 @@ func ruleIndexUnits(c *eng.Ctx) {
 		idx int
 	}
 	runeField := map[fkey]string{}
-	derivesFromRune := func(v ssa.Value) bool {
-		for w := range eng.Slice(v, nil) {
-			if runeIdx[w] {
-				return true
-			}
-			// i+1 where i walks the runes: the induction phi behind the index
-			if b, ok := w.(*ssa.BinOp); ok && (runeIdx[b.X] || runeIdx[b.Y]) {
-				return true
-			}
-		}
-		return false
-	}
-	for _, fn := range fns {
-		eng.Instrs(fn, false, func(in ssa.Instruction) {
-			st, ok := in.(*ssa.Store)
-			if !ok {
-				return
-			}
-			fa, ok := st.Addr.(*ssa.FieldAddr)
-			if !ok {
-				return
-			}
-			if b, ok := st.Val.Type().Underlying().(*types.Basic); !ok || b.Kind() != types.Int {
-				return
-			}
-			if derivesFromRune(st.Val) {
-				if fr, ok := eng.AsField(fa); ok {
-					runeField[fkey{strings.TrimPrefix(eng.TypeName(fa.X.Type()), "*"), fa.Field}] = fr.Struct + "." + fr.Field
-				}
-			}
-		})
-	}
+	runeParam := map[*ssa.Parameter]bool{}
 	fieldOf := func(v ssa.Value) (fkey, bool) {
 		switch x := v.(type) {
 		case *ssa.UnOp:
@@ -2397,6 +2366,68 @@ func ruleIndexUnits(c *eng.Ctx) {
 			return fkey{strings.TrimPrefix(eng.TypeName(x.X.Type()), "*"), x.Field}, true
 		}
 		return fkey{}, false
+	}
+	derivesFromRune := func(v ssa.Value) bool {
+		for w := range eng.Slice(v, nil) {
+			if runeIdx[w] {
+				return true
+			}
+			// i+1 where i walks the runes: the induction phi behind the index
+			if b, ok := w.(*ssa.BinOp); ok && (runeIdx[b.X] || runeIdx[b.Y]) {
+				return true
+			}
+			// a position handed on through a parameter or kept in a field that counts code points
+			if p, ok := w.(*ssa.Parameter); ok && runeParam[p] {
+				return true
+			}
+			if fk, ok := fieldOf(w); ok {
+				if _, is := runeField[fk]; is {
+					return true
+				}
+			}
+		}
+		return false
+	}
+	for changed, round := true, 0; changed && round < 4; round++ {
+		changed = false
+		for _, fn := range fns {
+			eng.Instrs(fn, false, func(in ssa.Instruction) {
+				switch x := in.(type) {
+				case *ssa.Store:
+					fa, ok := x.Addr.(*ssa.FieldAddr)
+					if !ok {
+						return
+					}
+					if b, ok := x.Val.Type().Underlying().(*types.Basic); !ok || b.Kind() != types.Int {
+						return
+					}
+					k := fkey{strings.TrimPrefix(eng.TypeName(fa.X.Type()), "*"), fa.Field}
+					if _, had := runeField[k]; !had && derivesFromRune(x.Val) {
+						if fr, ok := eng.AsField(fa); ok {
+							runeField[k] = fr.Struct + "." + fr.Field
+							changed = true
+						}
+					}
+				case ssa.CallInstruction:
+					g := eng.StaticCallee(x)
+					if g == nil || g.Pkg != fn.Pkg || g.Blocks == nil {
+						return
+					}
+					for i, a := range eng.ArgsWithRecv(x) {
+						if i >= len(g.Params) || runeParam[g.Params[i]] {
+							continue
+						}
+						if b, ok := a.Type().Underlying().(*types.Basic); !ok || b.Kind() != types.Int {
+							continue
+						}
+						if derivesFromRune(a) {
+							runeParam[g.Params[i]] = true
+							changed = true
+						}
+					}
+				}
+			})
+		}
 	}
 	var names []string
 	for _, v := range runeField {
@@ -2441,6 +2472,9 @@ func ruleIndexUnits(c *eng.Ctx) {
 						}
 						if runeIdx[w] {
 							bad = "an index into a []rune"
+						}
+						if p, ok := w.(*ssa.Parameter); ok && runeParam[p] {
+							bad = "the parameter " + p.Name() + ", which callers fill with a position counted in code points,"
 						}
 					}
 					if bad != "" {
